@@ -99,13 +99,12 @@ fn cmd_core(a: &Args) -> i32 {
         } else if n >= execs {
             break;
         }
-        let exec_no = match replay_exec {
-            Some(e) => e,
-            None => shard * 10_000_000 + n + 1,
-        };
+        // Replaying re-runs the shard from its start (the node list and thread bookkeeping of the
+        // process are part of the state), recording the schedule of the requested execution only.
+        let exec_no = shard * 10_000_000 + n + 1;
         let wseed = util::mix(seed.wrapping_mul(0x1000_0001), exec_no);
         let sseed = util::mix(wseed, 0x5EED);
-        let cfg = wl_core::ExecCfg { exec_no, wseed, sseed, mode, record: replay_exec.is_some() || a.flag("record"), step_budget: budget };
+        let cfg = wl_core::ExecCfg { exec_no, wseed, sseed, mode, record: replay_exec == Some(exec_no) || a.flag("record"), step_budget: budget };
         let use_fill = match strat.as_str() {
             "default" => false,
             "fill" => true,
@@ -129,14 +128,20 @@ fn cmd_core(a: &Args) -> i32 {
             runner::count("execs.nontrivial", 1);
             nontrivial_hashes.insert(o.trace_hash);
         }
-        if replay_exec.is_some() {
+        if replay_exec == Some(exec_no) {
             break;
         }
-        if runner::with(|r| r.violations.len()) >= 5 {
+        if replay_exec.is_none() && runner::with(|r| r.violations.len()) >= 5 {
             break;
         }
     }
     runner::count("distinct_nontrivial", nontrivial_hashes.len() as u64);
+    if nontrivial_hashes.len() <= 40_000 {
+        let hs: Vec<String> = nontrivial_hashes.iter().map(|h| format!("{:x}", h)).collect();
+        runner::with(|r| {
+            r.extra.insert("hashes".into(), json!(hs));
+        });
+    }
     if val == "arc" {
         let live = tp::ARC_LIVE.load(std::sync::atomic::Ordering::Relaxed);
         if live != 0 {
